@@ -14,8 +14,8 @@ import math
 from . import core
 from .core import cq_list, cq_nat, cq_str
 
-THEOREMS = ["C18_bijection", "C18_one_based", "C18_layout", "C18_attributes",
-            "C18_attributes_refuted", "C18_outputs_in_place", "C18_delay_order",
+THEOREMS = ["C18_bijection", "C18_expand_var_names", "C18_one_based", "C18_layout", "C18_attributes",
+            "C18_expand_total", "C18_attributes_refuted", "C18_outputs_in_place", "C18_delay_order",
             "C18_residual_partial", "C18_example"]
 
 GROUPS = ["states", "der_states", "alg_states", "inputs", "parameters", "constants"]
@@ -877,12 +877,23 @@ def run(ctx):
     descs = corpus()
     n_corpus = len(descs)
     mix = (["plain"] * 4 + ["comp"] * 3 + ["delay"] * 2 + ["tensor"] + ["lowrank"])
-    n_rand = ctx.scaled(110, 1500)
+    n_rand = ctx.scaled(90, 1500)
     for i in range(n_rand):
         descs.append(gen_model(ctx.rng, mix[i % len(mix)]))
+    # the listed known findings ride along in the same child (S4 without extra start-ups)
+    known_at = {}
+    for e in core.load_known(ctx.pid):
+        if e.get("replay", {}).get("desc"):
+            known_at[e["tag"]] = len(descs)
+            d = json.loads(json.dumps(e["replay"]["desc"]))
+            d["flavour"] = "known"
+            descs.append(d)
     cases = [make_case(d, ctx.rng) for d in descs]
+    import time as _t
+    t0 = _t.time()
     results = core.run_child(ctx, "c18", [{k: v for k, v in c.items() if k != "desc"} for c in cases], timeout=1500)
 
+    ctx.notes["phase_s"] = {"child": round(_t.time() - t0, 1)}
     skipped, verdicts = [], []
     dist = {"flavour": {}, "verdict": {}, "expanded_variables": 0, "scalars": 0, "rank": {}, "with_delay": 0,
             "component_arrays": 0, "der_arrays": 0, "array_attributes": 0, "residual_entries": 0}
@@ -933,7 +944,9 @@ def run(ctx):
                "skipped %d of %d generated models (first: %s)" % (len(skipped), len(cases), skipped[:2]))
     ctx.oblige("correspondence:all-cases-encoded", len(ctx.notes.get("not_encoded", [])) * 20 <= len(cases),
                str(ctx.notes.get("not_encoded", [])[:3]))
-    bad = core.coq_eval_cases(ctx, "exp", PREAMBLE, CASE_TYPE, enc, "check_case", shard=40)
+    t1 = _t.time()
+    bad = core.coq_eval_cases(ctx, "exp", PREAMBLE, CASE_TYPE, enc, "check_case", shard=ctx.scaled(15, 40))
+    ctx.notes["phase_s"]["coq_correspondence"] = round(_t.time() - t1, 1)
     mism = None if bad is None else [enc_idx[j] for j in bad]
     ctx.oblige("correspondence:model-vs-_expand_vectors", mism == [],
                "mismatching cases: %s" % (mism if mism is None else mism[:10]))
@@ -945,10 +958,10 @@ def run(ctx):
                         "observed": summarise(results[i])}, no_input=True)
 
     def still_fails(e):
-        d = e["replay"]["desc"]
-        c = make_case(d, __import__("random").Random(1))
-        r = core.run_child(ctx, "c18", [{k: v for k, v in c.items() if k != "desc"}])[0]
-        v = judge(c, r)
+        i = known_at.get(e["tag"])
+        if i is None:
+            return None
+        v = judge(cases[i], results[i])
         return bool(v) and v[0] == e["tag"]
     core.replay_known(ctx, still_fails)
 
